@@ -16,9 +16,23 @@ _ACT = re.compile(r"^/\\ act = (\[.*?\])\s*$", re.M | re.S)
 
 
 def trace_cfg(test_mode, qmax, pp_interval=2, skip_fix=True):
-    return (
-        "SPECIFICATION TSpec\nCONSTANTS\n  Scenarios = {}\n  Ticks = TRUE\n  SkipFix = %s\n  CctFix = TRUE\n  QMax = %d\n  PPInterval = %d\n  TestMode = %s\n  MaxEternal = 100000\nCHECK_DEADLOCK FALSE\n"
-        % ("TRUE" if skip_fix else "FALSE", qmax, pp_interval, "TRUE" if test_mode else "FALSE")
+    return "\n".join(
+        [
+            "SPECIFICATION TSpec",
+            "CONSTANTS",
+            "  Scenarios = {}",
+            "  Ticks = TRUE",
+            "  SkipFix = %s" % ("TRUE" if skip_fix else "FALSE"),
+            "  CctFix = TRUE",
+            "  SelfFailFix = TRUE",
+            "  QMax = %d" % qmax,
+            "  PPInterval = %d" % pp_interval,
+            "  TestMode = %s" % ("TRUE" if test_mode else "FALSE"),
+            '  FaultKinds = {"none", "req", "param", "store", "rcstore", "die", "cancel"}',
+            "  MaxEternal = 100000",
+            "CHECK_DEADLOCK FALSE",
+            "",
+        ]
     )
 
 
@@ -45,7 +59,7 @@ def _split_states(text):
     return parts[1:]
 
 
-def behaviours(ctx, out, num, depth, cfg="RaceDriver.sim.cfg", seed_off=0):
+def behaviours(ctx, out, num, depth, cfg="RaceDriver.sim.cfg", seed_off=0, with_fault=False):
     """TLC -simulate behaviours -> list of (scn_json, script) with script = [(action name, arg), ...]."""
     wd = tlc.prepare_workdir("RaceDriver", "racesim")
     simdir = os.path.join(wd, "sim")
@@ -63,6 +77,8 @@ def behaviours(ctx, out, num, depth, cfg="RaceDriver.sim.cfg", seed_off=0):
             continue
         m = re.search(r"^/\\ scn = (.*?)(?=^/\\ |\Z)", states[0], flags=re.M | re.S)
         scn = to_json(parse_value(m.group(1)))
+        mf = re.search(r"^/\\ flt = (.*?)(?=^/\\ |\Z)", states[0], flags=re.M | re.S)
+        fault = str(parse_value(mf.group(1))["kind"]) if mf else "none"
         script = []
         for st in states[1:]:
             body = "\n".join(ln for ln in st.splitlines() if not ln.startswith("\\*") and not ln.startswith("===="))
@@ -70,7 +86,7 @@ def behaviours(ctx, out, num, depth, cfg="RaceDriver.sim.cfg", seed_off=0):
             a = parse_value(ma.group(1))
             arg = a.get("w", a.get("c", a.get("i", 0)))
             script.append((str(a["name"]), arg))
-        result.append((scn, script))
+        result.append((scn, script, fault) if with_fault else (scn, script))
     return result
 
 
@@ -97,7 +113,16 @@ def run_races(ctx, out, jobs, clauses, label):
     stats = {"followed": 0, "skipped": 0, "hangs": 0, "incomplete": 0}
     for n, job in enumerate(jobs):
         tid = "%s-%d" % (label, n)
-        tr = racetrace.TracedRace(job["scn"], seed=job["seed"], test_mode=job["test_mode"], queue_size=job["qmax"] if job["qmax"] < 100 else None, offsets=job.get("offsets"))
+        tr = racetrace.TracedRace(
+            job["scn"],
+            seed=job["seed"],
+            test_mode=job["test_mode"],
+            queue_size=job["qmax"] if job["qmax"] < 100 else None,
+            offsets=job.get("offsets"),
+            fault=job.get("fault", "none"),
+            req_variant=job.get("req_variant", "conn_error"),
+            fault_delay=job.get("fault_delay", 0),
+        )
         try:
             tr.start()
             f, s = tr.run(job["script"], random.Random(job["seed"] * 7919 + 13), max_events=job.get("max_events", 400))
@@ -107,7 +132,9 @@ def run_races(ctx, out, jobs, clauses, label):
                 stats["hangs"] += 1
             if not tr.complete():
                 stats["incomplete"] += 1
-            if tr.w.sim.handler_errors:
+            if job.get("fault", "none") != "none":
+                stats["faults_fired"] = stats.get("faults_fired", 0) + (1 if tr.w.fault_fired else 0)
+            if tr.w.sim.handler_errors and job.get("fault", "none") == "none":
                 out.drift.append("%s: handler raised: %s" % (tid, tr.w.sim.handler_errors[0][2].strip().splitlines()[-1]))
             trace = tr.trace(tid)
         finally:
@@ -127,8 +154,8 @@ def run_races(ctx, out, jobs, clauses, label):
                 continue
             bad.add(tid)
             first = min(ln for ln, cl in fails if set(cl) & clauses)
-            case = {"scn": job["scn"], "seed": job["seed"], "test_mode": test_mode, "qmax": qmax, "offsets": job.get("offsets"), "decisions": [(e["ev"], e["arg"]) for e in trace["events"] if e["ev"] != "Hang"]}
-            out.violations.append(Violation(",".join(mine), case, signature={"clauses": mine, "scenario": scn_signature(job["scn"])}, detail="trace %s first failing event %d (%s)" % (tid, first, trace["events"][first - 1]["ev"])))
+            case = {"scn": job["scn"], "seed": job["seed"], "test_mode": test_mode, "qmax": qmax, "offsets": job.get("offsets"), "fault": job.get("fault", "none"), "req_variant": job.get("req_variant", "conn_error"), "decisions": [(e["ev"], e["arg"]) for e in trace["events"] if e["ev"] != "Hang"]}
+            out.violations.append(Violation(",".join(mine), case, signature={"clauses": mine, "scenario": scn_signature(job["scn"]), "fault": job.get("fault", "none")}, detail="trace %s first failing event %d (%s)" % (tid, first, trace["events"][first - 1]["ev"])))
         for tid, lines in v.l2.items():
             if tid in bad:
                 continue
@@ -136,7 +163,16 @@ def run_races(ctx, out, jobs, clauses, label):
             ln = lines[0]
             ev = trace["events"][ln - 1]["ev"] if ln >= 1 else "Init"
             out.drift.append("trace %s: event %d (%s) is not the %s step of RaceDriver.tla" % (tid, ln, ev, ev))
-        out.traces_validated += len(traces) - len(set(v.l1) | set(v.l2))
+            if os.environ.get("VERIF_DEBUG_DRIFT"):
+                import json
+
+                prev = trace["init"] if ln <= 1 else trace["events"][ln - 2]["st"]
+                cur = trace["events"][ln - 1]["st"] if ln >= 1 else trace["init"]
+                print("DRIFT", tid, ln, ev, trace["events"][ln - 1]["arg"] if ln >= 1 else "", "job", {k: v for k, v in job.items() if k not in ("script", "scn")})
+                for k in cur:
+                    if prev[k] != cur[k]:
+                        print("   ", k, "\n      before:", json.dumps(prev[k])[:900], "\n      after: ", json.dumps(cur[k])[:900])
+        out.traces_validated += len(traces) - len(bad | set(v.l2))
     return stats, index
 
 
@@ -144,7 +180,7 @@ def replay_case(ctx, case, clauses, pid):
     from ..core import Outcome
 
     out = Outcome(pid)
-    job = {"scn": case["scn"], "script": [tuple(x) for x in case["decisions"]], "seed": case["seed"], "test_mode": case["test_mode"], "qmax": case["qmax"], "offsets": case.get("offsets")}
+    job = {"scn": case["scn"], "script": [tuple(x) for x in case["decisions"]], "seed": case["seed"], "test_mode": case["test_mode"], "qmax": case["qmax"], "offsets": case.get("offsets"), "fault": case.get("fault", "none"), "req_variant": case.get("req_variant", "conn_error")}
     run_races(ctx, out, [job], clauses, "replay")
     for v in out.violations:
         print("VIOLATION property=%s clause=%s %s" % (pid, v.clause, v.detail))
